@@ -284,7 +284,9 @@ pub fn first_diff(got: &[PNode], exp: &[PNode]) -> Option<String> {
 /// mode `grammar` (C04): case = {out: [...]}; options layouts=a,b,c  gaps=all|none|sample
 pub fn grammar_case(case: &Value, layouts: &[String], single_gaps: usize) -> Outcome {
     let mut o = Outcome::default();
-    let p = parse_out(&case["out"]);
+    let mut p = parse_out(&case["out"]);
+    distinct_literals(&mut p);
+    let p = p;
     o.nontrivial = p.toks.len() >= 7;
     let mut names: Vec<String> = layouts.to_vec();
     // a comment line in single gaps in turn
